@@ -55,6 +55,24 @@ func dumpSR(sr *proj.SR) string {
 	return b.String()
 }
 
+// diffFields lists the top-level SR fields in which two SR values differ (bit patterns for floats)
+func diffFields(a, b *proj.SR) string {
+	va, vb := reflect.ValueOf(a).Elem(), reflect.ValueOf(b).Elem()
+	var out []string
+	for i := 0; i < va.NumField(); i++ {
+		var x, y strings.Builder
+		dumpValue(&x, va.Field(i))
+		dumpValue(&y, vb.Field(i))
+		if x.String() != y.String() {
+			out = append(out, va.Type().Field(i).Name)
+		}
+	}
+	if len(out) == 0 {
+		return "-"
+	}
+	return strings.Join(out, ",")
+}
+
 // firstDiff names the first field in which two dumps differ (for diagnostics)
 func firstDiff(a, b string) string {
 	fa, fb := strings.Split(a, ","), strings.Split(b, ",")
@@ -406,6 +424,8 @@ func implHist(p *vproto.Parser) string {
 			wc = 1
 		}
 		fmt.Fprintf(&b, " ; sr %d %d %d %s %s %s %d %d", i, canon[i], ll, san(sr.Axis), vproto.F2H(sr.ToMeter), vproto.F2H(sr.FromGreenwich), info[i].dtype, wc)
+		// what one run of the constructor changed on (a copy of) this SR: must lie in the model's write set
+		fmt.Fprintf(&b, " ; wd %d %s %s", i, san(strings.ToLower(sr.Name)), diffFields(sr, &c))
 	}
 	tag := func() string {
 		t := make([]byte, len(all))
